@@ -370,6 +370,9 @@ def split(mesh, only_watertight=True, adjacency=None, engine=None, **kwargs) -> 
     )
     # keep the faces of every component in their original relative order
     components = [np.sort(c) for c in components]
+    # holes are only patched when watertight results were asked for:
+    # otherwise every component is exactly the faces of the source mesh
+    kwargs.setdefault("repair", only_watertight)
     meshes = mesh.submesh(components, only_watertight=only_watertight, **kwargs)
     return meshes
 
